@@ -1,19 +1,25 @@
 import PfModel.Lemmas.LazySound
 import PfModel.Lemmas.LazyEval
-/-! Helper lemmas for `Props/C18.lean`, part 5: the session invariant and the core fact about one lazy call. -/
+import PfModel.Lemmas.LazyExact
+/-! Helper lemmas for `Props/C18.lean`, part 5: the session invariant and the core facts about one lazy call. -/
 namespace PF.Lazy
 open PF PF.Pipe
 
-/-- the invariant of a session whose calls all use the keyword arguments `kw` (the task graph's cache is keyed by root-argument
-    values only; entries made for other keyword arguments are outside this invariant) -/
-structure Sess (fs : List Func) (kw : List (String × Val)) (s : LSt) : Prop where
+/-- the invariant of a session on one pipeline: any sequence of lazy calls (with ANY keyword arguments, each call its own),
+    `evaluate()`s and `construct_dag()` blocks.  The cache clause speaks about every entry of the task graph's cache and of the
+    pipeline's own cache and about every set of keyword arguments that can find it (`EntryOK`). -/
+structure Sess (fs : List Func) (s : LSt) : Prop where
   closed : Closed s.nodes
-  cache : CacheSound fs kw s
+  cache : CacheSound fs s
   graph : GInv s
   done : DoneSound s.nodes s.ev
   log : LogInv s.ev
+  xclosed : DoneClosed s.nodes s.ev     -- the arguments of an evaluated node are evaluated
+  logged : DoneLogged s.ev              -- a node whose `_evaluated` flag is set is in the log of invocations
 
-theorem sess_inv0 {fs : List Func} {kw : List (String × Val)} {s : LSt} (h : Sess fs kw s) :
+theorem Sess.xinv {fs : List Func} {s : LSt} (h : Sess fs s) : XInv s.nodes s.ev := ⟨h.log, h.xclosed, h.logged⟩
+
+theorem sess_inv0 {fs : List Func} (kw : List (String × Val)) {s : LSt} (h : Sess fs s) :
     Inv fs kw { s with memo := kw.map fun (k, v) => (k, LArg.val v), used := [], usedNone := false } := by
   refine ⟨h.closed, ?_, h.cache, h.graph⟩
   intro p a hk hp
@@ -21,7 +27,8 @@ theorem sess_inv0 {fs : List Func} {kw : List (String × Val)} {s : LSt} (h : Se
   rw [alookup_map_val, hk] at hp; cases hp
 
 /-- the core fact about one lazy call `pipeline(o, **kw)` -/
-theorem lrunTop_name {fs : List Func} {kw : List (String × Val)} (hu : Unique fs) {s : LSt} (hs : Sess fs kw s) {o : String}
+theorem lrunTop_name {fs : List Func} {kw : List (String × Val)} {rank : String → Nat} (wf : PipeCache.WF fs rank) {s : LSt}
+    (hs : Sess fs s) {o : String}
     {a : LArg} {s' : LSt} (h : lrunTop fs kw (.name o) s = .ok (a, s')) :
     Step s s' ∧ Inv fs kw s' ∧ ∃ v k, den s'.nodes a = some v ∧ compose fs kw k o = .ok v := by
   simp only [lrunTop] at h
@@ -37,16 +44,102 @@ theorem lrunTop_name {fs : List Func} {kw : List (String × Val)} (hu : Unique f
           cases hh : alookup kw o with
           | none => rfl
           | some _ => rw [hh] at hko; simp at hko
-        obtain ⟨hst, hi, hv⟩ := lrun_sound hu (fuelFor fs) o _ a1 s1 (sess_inv0 hs) hrun
+        obtain ⟨hst, hi, hv⟩ := lrun_sound wf (fuelFor fs) o _ a1 s1 (sess_inv0 kw hs) hrun
         exact ⟨hst, hi, hv hko'⟩
       · cases h
 
-theorem sess_after {fs : List Func} {kw : List (String × Val)} {s s' : LSt} (hs : Sess fs kw s) (hst : Step s s')
-    (hi : Inv fs kw s') : Sess fs kw s' := by
+/-! ### a request for the whole tuple of one function -/
+
+/-- the end of `Pipeline.run`: the surplus-keyword check, skipped after a cache hit -/
+def fin (kw : List (String × Val)) (a : LArg) (s : LSt) : Except Err (LArg × LSt) :=
+  if s.usedNone || ((akeys kw).filter (fun k => !(s.used.contains k))).isEmpty then .ok (a, s)
+  else .error (.unused ((akeys kw).filter (fun k => !(s.used.contains k))))
+
+theorem fin_ok {kw : List (String × Val)} {a a' : LArg} {s s' : LSt} (h : fin kw a s = .ok (a', s')) : a' = a ∧ s' = s := by
+  unfold fin at h
+  split at h
+  · injection h with h; injection h with h1 h2; exact ⟨h1.symm, h2.symm⟩
+  · cases h
+
+def wholeKey (fs : List Func) (kw : List (String × Val)) (f : Func) (os : List String) (s : LSt) : Option Key :=
+  match os with | o :: _ => activeKey fs kw f o s | [] => none
+
+theorem lrunTop_whole_eq (fs : List Func) (kw : List (String × Val)) (os : List String) (s : LSt) :
+    lrunTop fs kw (.whole os) s =
+    match fs.find? (fun f => f.outputs = os) with
+    | none => .error (.noFunc (",".intercalate os))
+    | some f =>
+      match cacheLookup { s with memo := kw.map fun (k, v) => (k, LArg.val v), used := [], usedNone := false }
+          (wholeKey fs kw f os { s with memo := kw.map fun (k, v) => (k, LArg.val v), used := [], usedNone := false }) with
+      | some r => fin kw r { s with memo := kw.map fun (k, v) => (k, LArg.val v), used := [], usedNone := true }
+      | none =>
+        match largs (lrun fs kw (fuelFor fs)) fs kw f f.params
+            { s with memo := kw.map fun (k, v) => (k, LArg.val v), used := [], usedNone := false } with
+        | .error e => .error e
+        | .ok (args, s1) =>
+          fin kw (.ref s1.nodes.length)
+            (cachePut (wholeKey fs kw f os { s with memo := kw.map fun (k, v) => (k, LArg.val v), used := [], usedNone := false })
+              (.ref s1.nodes.length) (mkNode (.call f args) s1).2) := by
+  rfl
+
+/-- the core fact about a lazy call that requests the whole tuple of one function, `pipeline(("b", "c"), **kw)`: the returned
+    object stands for the function's raw result on the composition of its arguments -/
+theorem lrunTop_whole {fs : List Func} {kw : List (String × Val)} {rank : String → Nat} (wf : PipeCache.WF fs rank) {s : LSt}
+    (hs : Sess fs s) {os : List String}
+    {a : LArg} {s' : LSt} (h : lrunTop fs kw (.whole os) s = .ok (a, s')) :
+    Step s s' ∧ Inv fs kw s' ∧ ∃ f k vals, fs.find? (fun f => f.outputs = os) = some f ∧
+      composeArgsWith (compose fs kw k) fs kw f f.params = .ok vals ∧ den s'.nodes a = some (result f vals) := by
+  rw [lrunTop_whole_eq] at h
+  split at h
+  · cases h
+  · next f hfind =>
+    have hfm : f ∈ fs := List.mem_of_find?_eq_some hfind
+    have hfo : f.outputs = os := by simpa using List.find?_some hfind
+    have hi0 := sess_inv0 kw hs
+    have hprod : ∀ o rest, os = o :: rest → producer fs o = some f := fun o rest e =>
+      (producer_some_iff fs wf.uniq o f).mpr ⟨hfm, by rw [hfo, e]; exact List.mem_cons_self⟩
+    have hwk : ∀ s0 k', wholeKey fs kw f os s0 = some k' → ∃ o rest, os = o :: rest ∧ cacheKey fs kw f o = some k' := by
+      intro s0 k' hk'
+      unfold wholeKey at hk'
+      split at hk'
+      · next o rest => exact ⟨o, rest, rfl, activeKey_some hk'⟩
+      · cases hk'
+    split at h
+    · next r hr =>
+      -- the whole tuple was requested before (same key): the cached `_LazyFunction` is returned
+      obtain ⟨rfl, rfl⟩ := fin_ok h
+      obtain ⟨key, k', hkey, hmem, hq⟩ := cacheLookup_sound hr
+      obtain ⟨o, rest, hos, hck⟩ := hwk _ k' hkey
+      obtain ⟨k, vals, hk, hd⟩ := hi0.cache key a hmem f o kw k' (hprod o rest hos) hck hq
+      exact ⟨⟨⟨[], by simp⟩, rfl, rfl⟩, ⟨hi0.closed, hi0.memo, hi0.cache, hi0.graph⟩, f, k, vals, hfind, hk, hd⟩
+    · split at h
+      · cases h
+      · next args s1 hargs =>
+        obtain ⟨rfl, rfl⟩ := fin_ok h
+        obtain ⟨hs1, hi1, k, vals, hk, hdargs⟩ := largs_sound _ (lrun_sound wf (fuelFor fs)) f f.params _ args s1 hi0 hargs
+        obtain ⟨hi2, hd2⟩ := call_node_sound (f := f) s1 hi1 hdargs
+        have hs1' : Step s s1 := hs1
+        cases hwk' : wholeKey fs kw f os { s with memo := kw.map fun (k, v) => (k, LArg.val v), used := [], usedNone := false } with
+        | none =>
+          exact ⟨hs1'.trans (mkNode_step _ s1), by simpa [cachePut] using hi2, f, k, vals, hfind, hk, by simpa [cachePut] using hd2⟩
+        | some k' =>
+          obtain ⟨o, rest, hos, hck⟩ := hwk _ k' hwk'
+          obtain ⟨hi3, hs3, hn3, _⟩ := cachePut_inv wf (some k') (.ref s1.nodes.length) _ hi2 (hprod o rest hos)
+            (fun k'' hk'' => by injection hk'' with hk''; rw [← hk'']; exact hck) hk hd2
+          exact ⟨hs1'.trans ((mkNode_step _ s1).trans hs3), hi3, f, k, vals, hfind, hk, by rw [hn3]; exact hd2⟩
+
+theorem sess_after {fs : List Func} {kw : List (String × Val)} {s s' : LSt} (hs : Sess fs s) (hst : Step s s')
+    (hi : Inv fs kw s') : Sess fs s' := by
   obtain ⟨⟨ext, hext⟩, hev, _⟩ := hst
-  refine ⟨hi.closed, hi.cache, hi.graph, ?_, by rw [hev]; exact hs.log⟩
-  intro i w hl
-  rw [hev] at hl
-  rw [hext]; exact den_ext ext (hs.done i w hl)
+  refine ⟨hi.closed, hi.cache, hi.graph, ?_, by rw [hev]; exact hs.log, ?_, by rw [hev]; exact hs.logged⟩
+  · intro i w hl
+    rw [hev] at hl
+    rw [hext]; exact den_ext ext (hs.done i w hl)
+  · intro i nd hd hn j hj
+    rw [hev] at hd ⊢
+    obtain ⟨w, hw⟩ := Option.isSome_iff_exists.mp hd
+    have hlt : i < s.nodes.length := den_some_lt (hs.done i w hw)
+    rw [hext, List.getElem?_append_left hlt] at hn
+    exact hs.xclosed i nd hd hn j hj
 
 end PF.Lazy
